@@ -1,7 +1,7 @@
 CHECKS = [
     entry("C21", "wire",
           technique="property-based testing (rapid): generated ID-field constellations through a real Router on loopback in every Honeycomb ingestion encoding (+ peer hop), judged by a reference function written from the statement",
-          quick=dict(checks=6000, budget_s=40),
+          quick=dict(checks=2500, budget_s=45),
           thorough=dict(checks=30000, shards=16, budget_s=400),
           level_text="Generated events with any subset/order/typing of meta.trace_id, configured and look-alike trace-ID/parent-ID fields and meta.signal_type, sent as JSON event, msgpack event, JSON batch, msgpack batch (optionally compressed, optionally via a peer hop through a real DirectTransmission); collector TraceID/IsRoot and routing compared with a reference function. Exploration: finds deviations for the constellations the generator reaches; does not prove absence.",
           level_note="MockConfig supplies TraceNames/ParentNames (plain getters in the file config). OTLP ingestion is not driven here (husky fixes the ID field names). Events with >=2 ID fields are repeated 40x on the map-decoding paths; a deviation rarer than ~1/8 per send may still be missed in one execution."),
